@@ -28,6 +28,7 @@ type Obligation struct {
 	Model   string
 	File    string
 	Relaxed bool
+	Quick   bool // listed as a known finding: one short attempt, no model search
 }
 
 type WitnessExpr struct {
@@ -62,6 +63,7 @@ type FnCtx struct {
 	entryPC []Term
 	Ends    int
 	panicOnly bool
+	setLib  bool
 }
 
 func (c *FnCtx) declare(name string, sort Sort) Term {
@@ -130,6 +132,7 @@ type State struct {
 	recovered bool
 	rec    *recorder
 	dead   bool
+	knownTags map[string]int
 }
 
 type recorder struct {
@@ -159,6 +162,10 @@ func (st *State) clone() *State {
 		panicking: st.panicking,
 		recovered: st.recovered,
 		rec:    st.rec,
+		knownTags: make(map[string]int, len(st.knownTags)),
+	}
+	for k, v := range st.knownTags {
+		n.knownTags[k] = v
 	}
 	for k, v := range st.pcSet {
 		n.pcSet[k] = v
